@@ -1,4 +1,4 @@
-//@ needs specs errors stdspecs anchor_shim authority
+//@ needs specs errors stdspecs lebytes anchor_shim authority
 // C16: transfer-fee arithmetic. TransferFee::{ceil_div, calculate_fee, calculate_pre_fee_amount, calculate_inverse_fee}
 // are extracted from the pinned dependency source (spl-token-2022 8.0.1, the version in /repo/Cargo.lock).
 pub mod spl_transfer_fee {
@@ -123,6 +123,7 @@ use crate::specs::*;
 use crate::authority_pino::{Result, UnifiedError, AccountInfo};
 use crate::spl_transfer_fee::*;
 use crate::token_v2::{TransferFeeExcludedAmount, TransferFeeIncludedAmount};
+use crate::lebytes::*;
 //@ tags C16 C12
 //@ root programs/whirlpool/src
 //@ assume pinocchio token shims: load_token_program_account_unchecked / parse_token_extensions (raw-pointer TLV parsing) and Clock::get are external stubs; the transfer-fee-config view exposes the six little-endian fields through assumed accessors
@@ -131,24 +132,46 @@ impl MemoryMappedTokenMint {
     #[verifier::external_body]
     pub fn extensions_tlv_data(&self) -> (r: &[u8]) { unimplemented!() }
 }
-pub struct MemoryMappedTransferFeeConfigExtension {
-    pub older_epoch: u64, pub older_max: u64, pub older_bps: u16, pub newer_epoch: u64, pub newer_max: u64, pub newer_bps: u16,
-}
+pub type BytesU16 = [u8; 2];
+pub type BytesU64 = [u8; 8];
+pub type Pubkey = crate::anchor_shim::Pubkey;
+//@ subst /\b(u64|u16)::from_le_bytes\(/ => /\1_from_le_bytes(/
+//@ struct pinocchio/state/token/extensions.rs MemoryMappedTransferFeeConfigExtension
 impl MemoryMappedTransferFeeConfigExtension {
-    pub open spec fn wf(&self) -> bool { self.older_bps <= 10_000 && self.newer_bps <= 10_000 }
-    pub fn older_transfer_fee_epoch(&self) -> (r: u64) ensures r == self.older_epoch { self.older_epoch }
-    pub fn older_transfer_fee_maximum_fee(&self) -> (r: u64) ensures r == self.older_max { self.older_max }
-    pub fn older_transfer_fee_transfer_fee_basis_points(&self) -> (r: u16) ensures r == self.older_bps { self.older_bps }
-    pub fn newer_transfer_fee_epoch(&self) -> (r: u64) ensures r == self.newer_epoch { self.newer_epoch }
-    pub fn newer_transfer_fee_maximum_fee(&self) -> (r: u64) ensures r == self.newer_max { self.newer_max }
-    pub fn newer_transfer_fee_transfer_fee_basis_points(&self) -> (r: u16) ensures r == self.newer_bps { self.newer_bps }
+    // the two flattened fee schedules of the Token-2022 TransferFeeConfig extension, as the little-endian values of their own bytes
+    pub closed spec fn older_epoch(&self) -> u64 { le_u64(self.older_transfer_fee_epoch) }
+    pub closed spec fn older_max(&self) -> u64 { le_u64(self.older_transfer_fee_maximum_fee) }
+    pub closed spec fn older_bps(&self) -> u16 { le_u16(self.older_transfer_fee_transfer_fee_basis_points) }
+    pub closed spec fn newer_epoch(&self) -> u64 { le_u64(self.newer_transfer_fee_epoch) }
+    pub closed spec fn newer_max(&self) -> u64 { le_u64(self.newer_transfer_fee_maximum_fee) }
+    pub closed spec fn newer_bps(&self) -> u16 { le_u16(self.newer_transfer_fee_transfer_fee_basis_points) }
+    pub open spec fn wf(&self) -> bool { self.older_bps() <= 10_000 && self.newer_bps() <= 10_000 }
+//@ fn pinocchio/state/token/extensions.rs older_transfer_fee_epoch in=/^impl MemoryMappedTransferFeeConfigExtension \{/ -> r
+    ensures r == self.older_epoch(),
+//@ end
+//@ fn pinocchio/state/token/extensions.rs older_transfer_fee_maximum_fee in=/^impl MemoryMappedTransferFeeConfigExtension \{/ -> r
+    ensures r == self.older_max(),
+//@ end
+//@ fn pinocchio/state/token/extensions.rs older_transfer_fee_transfer_fee_basis_points in=/^impl MemoryMappedTransferFeeConfigExtension \{/ -> r
+    ensures r == self.older_bps(),
+//@ end
+//@ fn pinocchio/state/token/extensions.rs newer_transfer_fee_epoch in=/^impl MemoryMappedTransferFeeConfigExtension \{/ -> r
+    ensures r == self.newer_epoch(),
+//@ end
+//@ fn pinocchio/state/token/extensions.rs newer_transfer_fee_maximum_fee in=/^impl MemoryMappedTransferFeeConfigExtension \{/ -> r
+    ensures r == self.newer_max(),
+//@ end
+//@ fn pinocchio/state/token/extensions.rs newer_transfer_fee_transfer_fee_basis_points in=/^impl MemoryMappedTransferFeeConfigExtension \{/ -> r
+    ensures r == self.newer_bps(),
+//@ end
 }
 pub struct TokenExtensions<'a> { pub transfer_fee_config: Option<&'a MemoryMappedTransferFeeConfigExtension> }
 pub struct ClockData { pub epoch: u64 }
+pub uninterp spec fn current_epoch() -> u64;
 pub struct Clock {}
 impl Clock {
     #[verifier::external_body]
-    pub fn get() -> (r: Result<ClockData>) { unimplemented!() }
+    pub fn get() -> (r: Result<ClockData>) ensures r matches Ok(c) ==> c.epoch == current_epoch() { unimplemented!() }
 }
 #[verifier::external_body]
 pub fn load_token_program_account_unchecked<T>(a: &AccountInfo) -> (r: Result<Box<T>>) { unimplemented!() }
@@ -157,14 +180,14 @@ pub fn parse_token_extensions<'a>(tlv: &'a [u8]) -> (r: Result<TokenExtensions<'
     ensures r matches Ok(e) ==> (e.transfer_fee_config matches Some(c) ==> c.wf()),
 { unimplemented!() }
 
-/// the schedule in force: the newer one from its epoch on, the older one before
+/// the schedule in force: the newer one from its epoch on, the older one before (the epoch comes from the Clock sysvar stub)
 //@ fn pinocchio/ported/util_token.rs pino_get_epoch_transfer_fee -> r
     requires token_extensions.transfer_fee_config matches Some(c) ==> c.wf(),
     ensures
         token_extensions.transfer_fee_config is None ==> r matches Ok(None),
         r matches Ok(Some(f)) ==> f.wf() && (token_extensions.transfer_fee_config matches Some(c) && (
-               (f.epoch.0 == c.newer_epoch && f.maximum_fee.0 == c.newer_max && f.transfer_fee_basis_points.0 == c.newer_bps && f.epoch.0 >= 0)
-            || (f.epoch.0 == c.older_epoch && f.maximum_fee.0 == c.older_max && f.transfer_fee_basis_points.0 == c.older_bps))),
+               (current_epoch() >= c.newer_epoch() && f.epoch.0 == c.newer_epoch() && f.maximum_fee.0 == c.newer_max() && f.transfer_fee_basis_points.0 == c.newer_bps())
+            || (current_epoch() < c.newer_epoch() && f.epoch.0 == c.older_epoch() && f.maximum_fee.0 == c.older_max() && f.transfer_fee_basis_points.0 == c.older_bps()))),
 //@ end
 
 //@ fn pinocchio/ported/util_token.rs pino_calculate_transfer_fee_excluded_amount -> r
